@@ -1,0 +1,15 @@
+//go:build verif
+
+package manager
+
+// VerifGate, when set by a verification harness before New is called, is
+// invoked by every background job at "<job>.start" (first statement) and at
+// "<job>.done" (just before the job posts its completion to the service
+// loop). The harness blocks inside it to choose the order of completions.
+var VerifGate func(point string)
+
+func verifGate(point string) {
+	if g := VerifGate; g != nil {
+		g(point)
+	}
+}
